@@ -553,15 +553,32 @@ impl Prop for C14 {
             let i = ch.below(ws.metas.len() + 1);
             ws.insert_empty_patch(i);
         }
+        // sometimes a series without any patch (comments and blank lines only), no .pc yet
+        let empty_series = ch.chance(1, 12);
+        if empty_series {
+            ws.spec.series = crate::bytes::B::new(*ch.pick(&["", "# nothing here\n", "\n\n# c\n"]));
+            ws.metas.clear();
+            ws.states.truncate(1);
+            ws.fail_at = None;
+            ws.feat.push("empty-series".into());
+        }
         let mut base = gen_opts(ch, true);
         base.verbosity = "-q".into();
         base.mmap = false;
         let n = ws.metas.len();
         let prior = if ch.chance(1, 3) { ch.below(ws.applicable() + 1) } else { 0 };
-        base.goal = match ch.weighted(&[5, 2, 3]) {
-            0 => Goal::All,
-            1 => Goal::Count(ch.range(1, n)),
-            _ => Goal::Name(ws.metas[ch.below(n)].name.clone()),
+        base.goal = if n == 0 {
+            if ch.chance(1, 2) {
+                Goal::All
+            } else {
+                Goal::Next
+            }
+        } else {
+            match ch.weighted(&[5, 2, 3]) {
+                0 => Goal::All,
+                1 => Goal::Count(ch.range(1, n)),
+                _ => Goal::Name(ws.metas[ch.below(n)].name.clone()),
+            }
         };
         let nv = if thorough { 6 } else { 3 };
         let variants = (0..nv).map(|_| VARIANT_OPTS[ch.below(VARIANT_OPTS.len())].iter().map(|s| s.to_string()).collect()).collect();
@@ -635,6 +652,28 @@ impl Prop for C15 {
     fn build(&self, ch: &mut Chooser, cx: &mut CaseCtx) -> CliCase {
         let mut c = build_cli_case(ch, cx, 3, true);
         c.opts.mmap = ch.chance(1, 2);
+        // stale quilt backup files of patches that are about to be pushed (e.g. left by an interrupted pop)
+        if ch.chance(1, 4) {
+            let mut stale = String::new();
+            for m in c.ws.metas.iter().take(2) {
+                for o in m.ops.iter().take(2) {
+                    stale.push_str(&format!(".pc/{}/{}\n", m.name, o.target));
+                }
+            }
+            c.opts.backup = "always".into();
+            c.opts.backup_count = "all".into();
+            c.ws.feat.push(format!("stale-backups:{}", stale.replace('\n', ";")));
+        }
+        // stale reject files from an earlier attempt (they are hard-linked into the twin as well)
+        if let Some(j) = c.ws.fail_at {
+            let targets: Vec<String> = c.ws.metas[j].ops.iter().filter(|o| !o.failing_hunks.is_empty()).map(|o| o.target.clone()).collect();
+            for t in targets {
+                if ch.chance(1, 2) && c.ws.spec.tree.files.keys().any(|p| p.starts_with(&format!("{}/", t.rsplit_once('/').map_or("", |x| x.0))) || !t.contains('/')) {
+                    c.ws.spec.tree.files.insert(format!("{}.rej", t), ws::TFile { data: crate::bytes::B::new("stale reject from an earlier attempt\n"), mode: 0o644 });
+                    c.ws.feat.push("stale-reject-file".into());
+                }
+            }
+        }
         c
     }
     fn check(&self, case: &CliCase, cx: &mut CaseCtx) -> Verdict {
@@ -646,6 +685,13 @@ impl Prop for C15 {
         let root = base.join("work");
         let twin = base.join("twin");
         ws.spec.materialise(&root);
+        for f in &ws.feat {
+            if let Some(list) = f.strip_prefix("stale-backups:") {
+                for p in list.split(';').filter(|p| !p.is_empty()) {
+                    ws::write_file(&root, p, b"stale backup\n");
+                }
+            }
+        }
         // twin of the user files only (patches/series are inputs)
         ws::link_tree(&root, &twin);
         ws::pin_mtimes(&root);
@@ -684,6 +730,7 @@ impl Prop for C15 {
                 named.push(op.new_path.clone());
                 named.push(op.target.clone());
                 named.push(format!("{}.orig", op.old_path));
+                named.push(format!("{}.rej", op.target));
             }
         }
         let mut changed_named = false;
@@ -730,6 +777,59 @@ impl Prop for C15 {
         }
         if changed_named && unnamed >= 1 {
             cx.nontrivial = true;
+        }
+        // second phase: the same push as an unprivileged user with one directory read-only, so that
+        // unlinking a file in it fails while the file itself stays writable: the file must then NOT be
+        // rewritten in place (its hard-linked twin keeps its content) and the push must fail
+        if case.prior % 2 == 0 {
+            // files the run changes (per the model), existing at the start, in a sub-directory, owner-writable
+            let exp = expectation(ws, &case.opts, 0);
+            let end = &ws.states[exp.applied];
+            let victims: Vec<&String> = ws
+                .spec
+                .tree
+                .files
+                .iter()
+                .filter(|(p, f)| p.contains('/') && f.mode & 0o200 != 0 && end.files.get(*p).map_or(false, |g| g.data != f.data))
+                .map(|(p, _)| p)
+                .collect();
+            if let Some(victim) = victims.first() {
+                let dir = &victim[..victim.rfind('/').unwrap()];
+                let base = cx.env.fresh_dir("c15u-");
+                let root = base.join("work");
+                let twin = base.join("twin");
+                ws.spec.materialise(&root);
+                ws::link_tree(&root, &twin);
+                ws::chown_tree(&base, 65534);
+                let _ = std::fs::set_permissions(&base, std::os::unix::fs::PermissionsExt::from_mode(0o777));
+                let dpath = root.join(dir);
+                let _ = std::fs::set_permissions(&dpath, std::os::unix::fs::PermissionsExt::from_mode(0o555));
+                let twin_before = ws::snapshot(&twin);
+                let obs = push(cx, &root, &case.opts, &ws::RunOpts { uid: Some(65534), ..Default::default() });
+                let twin_after = ws::snapshot(&twin);
+                let _ = std::fs::set_permissions(&dpath, std::os::unix::fs::PermissionsExt::from_mode(0o755));
+                ws::rm_rf(&base);
+                cx.label("unprivileged-readonly-dir-phase");
+                if obs.out.exit == Exit::Timeout {
+                    return Verdict::Inconclusive("watchdog".into());
+                }
+                for (p, e) in &twin_before {
+                    if e.kind != 'f' {
+                        continue;
+                    }
+                    if let Some(f) = twin_after.get(p) {
+                        if f.bytes != e.bytes {
+                            return Verdict::Fail(format!("unlink failed (read-only directory {:?}) and the file was then rewritten IN PLACE: hard-linked twin {:?} changed; exit {:?}", dir, String::from_utf8_lossy(p), obs.out.exit));
+                        }
+                    }
+                }
+                if obs.out.exit == Exit::Code(0) {
+                    return Verdict::Fail(format!("file {:?} could not be replaced (directory {:?} is read-only for the user) but the push exits 0", victim, dir));
+                }
+                if let Some(c) = crash_or_timeout(&obs.out.exit) {
+                    return Verdict::Fail(format!("push crashed in the read-only directory phase: {}", c));
+                }
+            }
         }
         Verdict::Pass
     }
